@@ -321,13 +321,22 @@ def build_c(name, driver, repo_sources, extra_sources=(), cflags=(), ldflags=(),
                 errs.append("%s:\n%s" % (s, e.decode("utf-8", "replace")[-2000:]))
         if errs:
             return None, "\n".join(errs)
-        ld = [cc] + (ASAN_FLAGS if asan else []) + ["-o", exe] + objs
+        # link beside the target and rename into place: another check that is running the previous
+        # executable right now (same driver, other property) keeps its open file, and nobody ever sees a
+        # half-written one
+        tmp_exe = exe + ".tmp.%d" % os.getpid()
+        ld = [cc] + (ASAN_FLAGS if asan else []) + ["-o", tmp_exe] + objs
         if wraps:
             ld += ["-Wl," + ",".join("--wrap=" + w for w in wraps)]
         ld += list(ldflags)
         rc, o, e = run(ld, timeout=timeout)
         if rc != 0:
+            try:
+                os.unlink(tmp_exe)
+            except OSError:
+                pass
             return None, e[-3000:]
+        os.replace(tmp_exe, exe)
     return exe, None
 
 
